@@ -7,6 +7,7 @@ import StepModel.P21SafeOwnLemmas
 import StepModel.P21SafeDataLemmas
 import StepModel.P21SafeData2Lemmas
 import StepModel.P21SafeHeaderLemmas
+import StepModel.P21SafePass2Lemmas
 import StepModel.Generated.C05Buffers
 /-! # C05 — reading and writing Part 21 is memory-safe and terminates (the part Lean can carry)
 
@@ -517,6 +518,50 @@ theorem C05_readData2_partial (ri : IS → Out LoopRes) (K : Nat) (hK : 1 ≤ K)
       r.steps ≤ (39 + K) * (s.rest.length + 1) + C05.readCommentIters + K + 8 ∧
       r.notCreated ≤ C05.maxErrorCount + 1 ∧ (r.aborted = true ↔ r.notCreated = C05.maxErrorCount + 1) :=
   readData2_ok ri K hK _ wsMode _ _ s hri
+
+/-- Pass 2 with the concrete `ReadInstance` skeleton (`ReadComment`, the id, the look-up of the instance pass 1 created —
+any oracle —, `=`, the record, and after a mis-read value the second scan of the record from its start:
+`in.clear(); in.seekg( recStart ); SkipInstance`).  For every record reader `rd` (the keyword and `STEPread` with the token
+separator behind it) that (1) is a stage with constant `K` and (2) **stays in the record** — never goes beyond the place
+where `SkipInstance`, started at the beginning of the record, ends it — pass 2 ends with fuel `|bytes| + 2`, never un-reads,
+makes at most `(K + 47)·(|bytes| + 1) + 2·readCommentIters + K + 16` steps, and keeps the `_maxErrorCount` cut-off.
+Hypothesis (2) is what `fixes/C05-14 … C05-19` establish for the scans behind `STEPread` (`C05_recoveryScan_stays_in_record`);
+without it every damaged record pays for the rest of the file again (`C05_recoveryScan_leaves_record_witness`,
+`C05_recoveryScan_parity_witness`) and no such bound exists. -/
+theorem C05_readData2_skeleton_partial (lookup : IS → Nat) (rd : IS → Out LoopRes) (K : Nat) (wsMode : Bool) (s : IS)
+    (hrd : StageOk C05.readCommentIters rd K (s.rest.length + 1))
+    (hstay : ∀ x r rs sk, x.m ≤ s.rest.length + 1 → rd x = .ok r →
+      skipInstance C05.skipInstanceSkipsComments C05.readCommentIters (s.rest.length + 2) { x with skipws := sk } = .ok rs →
+      rs.s.m ≤ r.s.m) :
+    ∃ r, readData2 (readInstanceSkel lookup rd
+          (readComment C05.skipInstanceSkipsComments C05.readCommentIters (s.rest.length + 2))
+          (readTokenSeparator C05.skipInstanceSkipsComments C05.readCommentIters (s.rest.length + 2))
+          (skipInstance C05.skipInstanceSkipsComments C05.readCommentIters (s.rest.length + 2)))
+        C05.skipInstanceSkipsComments wsMode C05.readCommentIters C05.maxErrorCount (s.rest.length + 2) s = .ok r ∧
+      r.s.m ≤ s.m ∧
+      r.steps ≤ (K + 47) * (s.rest.length + 1) + 2 * C05.readCommentIters + K + 16 ∧
+      r.notCreated ≤ C05.maxErrorCount + 1 ∧ (r.aborted = true ↔ r.notCreated = C05.maxErrorCount + 1) := by
+  have hm := IS.m_le s
+  obtain ⟨r, a, b, c, d, f⟩ := readData2_skel_okF lookup rd K C05.skipInstanceSkipsComments wsMode C05.readCommentIters
+    C05.maxErrorCount s (s.rest.length + 2) (by omega) hrd hstay
+  refine ⟨r, a, b, ?_, d, f⟩
+  have h1 := dataPot_le (D := K + 15) (R := C05.readCommentIters) s
+  have h2 : (32 + (K + 15)) * s.m ≤ (K + 47) * (s.rest.length + 1) := by
+    have : 32 + (K + 15) = K + 47 := by omega
+    rw [this]
+    exact Nat.mul_le_mul_left _ (by omega)
+  omega
+
+/-- `ReadComment` on any stream (called by `ReadInstance` in front of the instance id): ends with fuel `|bytes| + 2`, never
+un-reads, its steps paid by what it consumes — a character that does not start a comment is put back -/
+theorem C05_steps_readComment (s : IS) :
+    ∃ r, readComment C05.skipInstanceSkipsComments C05.readCommentIters (s.rest.length + 2) s = .ok r ∧ r.s.m ≤ s.m ∧
+      r.steps ≤ 4 * (s.rest.length + 1) + C05.readCommentIters + 1 := by
+  have hm := IS.m_le s
+  obtain ⟨r, a, b, c⟩ := readComment_stage C05.readCommentIters C05.skipInstanceSkipsComments C05.readCommentIters (Nat.le_refl _)
+    (s.rest.length + 2) s (by omega)
+  have := pot_le (R := C05.readCommentIters) s
+  exact ⟨r, a, b, by omega⟩
 
 /-- resynchronisation: whenever `FindStartOfInstance` reports success, the stream is good and its next byte is `#` -/
 theorem C05_findStartOfInstance_resync (fuel : Nat) (s : IS) (r : LoopRes)
